@@ -653,8 +653,8 @@ class ScriptGen:
                 size, al, _ = s.struct_layout(v.a)
                 self.h.append('Gn:%d:%d:%s' % (t, j, hx(v.b.a)))
                 idw = int.from_bytes(s.ident.encode(), 'little') if s.ident else 0
-                # CORRECTED behaviour (fixes/C15-nested-struct-create-as-root-mark.patch): buffer_start, struct, buffer_end;
-                # the unchanged generator calls create_buffer(.., is_nested) without start_buffer (length from the parent's mark)
+                # buffer_start, struct, buffer_end (fix 5438d76, fixes/C15-nested-struct-create-as-root-mark.patch; before it the
+                # generator called create_buffer(.., is_nested) without start_buffer: length taken from the parent's mark)
                 self.m.append('B:%d:0:0' % idw)
                 self.m.append('R:%d:%s' % (al, hx(v.b.a))); rs = self.new()
                 self.m.append('E:%d' % rs); rb = self.new()
